@@ -52,11 +52,14 @@ pub struct Arena {
     pub concretised: usize,
     /// fold sqrt of constants approximately (used only for concrete-data runs through the LM loop)
     pub approx_sqrt: bool,
+    /// round the shadow values of non-constant nodes to ~256 bits once they exceed 2048 bits (long runs through
+    /// the optimizer loop: exact rationals grow exponentially with the nesting depth).  The terms stay exact.
+    pub round_shadows: bool,
 }
 
 impl Arena {
     fn new() -> Arena {
-        Arena { nodes: Vec::new(), shadow: Vec::new(), index: HashMap::new(), trace: Vec::new(), inputs: HashMap::new(), vars: Vec::new(), garbage_reads: 0, concretised: 0, approx_sqrt: false }
+        Arena { nodes: Vec::new(), shadow: Vec::new(), index: HashMap::new(), trace: Vec::new(), inputs: HashMap::new(), vars: Vec::new(), garbage_reads: 0, concretised: 0, approx_sqrt: false, round_shadows: false }
     }
 }
 
@@ -109,6 +112,13 @@ fn mk_in(a: &mut Arena, n: Node, sh: Option<Q>) -> Sym {
         return Sym(i);
     }
     let i = a.nodes.len() as u32;
+    let sh = match sh {
+        Some(q) if a.round_shadows && !matches!(n, Node::Const(_)) && q.numer().bits() + q.denom().bits() > 2048 && q.denom().bits() > 256 => {
+            let shift = q.denom().bits() - 256;
+            Some(Q::new(q.numer() >> shift, q.denom() >> shift))
+        }
+        other => other,
+    };
     a.nodes.push(n.clone());
     a.shadow.push(sh);
     a.index.insert(n, i);
@@ -556,10 +566,15 @@ impl Float for Sym {
         true
     }
     fn is_normal(self) -> bool {
-        true
+        // over the reals there are no subnormals, infinities or NaN: `is_normal` is `!= 0` (a recorded decision)
+        self != Sym::int(0)
     }
     fn classify(self) -> std::num::FpCategory {
-        std::num::FpCategory::Normal
+        if self == Sym::int(0) {
+            std::num::FpCategory::Zero
+        } else {
+            std::num::FpCategory::Normal
+        }
     }
     fl_un!(floor, ceil, round, trunc, fract, exp, exp2, ln, log2, log10, cbrt, sin, cos, tan, asin, acos, atan, exp_m1, ln_1p, sinh, cosh, tanh, asinh, acosh, atanh);
     fn abs(self) -> Sym {
